@@ -317,23 +317,18 @@ RemoveAllRes(S0, d, n) ==
 \* never fails; lazy contents are dropped, not instantiated
 RemoveAllChildrenRes(S, d, self) == Ok(Clear(S, d, self), NoRet)
 
-RECURSIVE DetachExisting(_, _, _, _)
-DetachExisting(S, d, ch, i) ==
-  IF i > Len(ch) THEN S
-  ELSE LET j == Find(S.dirs[d].ents, ch[i].n) IN
-       IF j = 0 THEN DetachExisting(S, d, ch, i + 1)
-       ELSE LET e == S.dirs[d].ents[j]
-                S1 == Detach(S, d, j)
-            IN DetachExisting(IF e.k = "d" THEN Clear(S1, e.c, TRUE) ELSE Unlink(S1, e.c), d, ch, i + 1)
-
 \* CreateChildren(children, overwrite); children: sequence of child
-\* descriptions with pairwise different normalized names.
+\* descriptions with pairwise different normalized names.  Overwritten
+\* entries are detached first and removed recursively afterwards.
 CreateChildrenRes(S0, d, ch, overwrite) ==
   LET S == Mat(S0, d)
-      clash == \E i \in 1 .. Len(ch) : Find(S.dirs[d].ents, ch[i].n) # 0
-  IN IF S.dirs[d].deleted THEN Err(S, {"NoEnt"})            \* CreateChildren_Deleted
-     ELSE IF ~overwrite /\ clash THEN Err(S, {"Exist"})     \* CreateChildren_NoOverwriteExists: nothing changes
-     ELSE Ok(AttachChildren(DetachExisting(S, d, ch, 1), d, ch, 1, FALSE), NoRet)  \* CreateChildren_Created / _Overwritten
+      r == S.dirs[d]
+      hit(e) == \E i \in 1 .. Len(ch) : Norm(ch[i].n) = Norm(e.n)
+      gone == SelectSeq(r.ents, hit)
+      S1 == SetDir(S, d, [r EXCEPT !.ents = SelectSeq(r.ents, LAMBDA e : ~hit(e)), !.chg = r.chg + Len(gone)])
+  IN IF r.deleted THEN Err(S, {"NoEnt"})                    \* CreateChildren_Deleted
+     ELSE IF ~overwrite /\ gone # <<>> THEN Err(S, {"Exist"})   \* CreateChildren_NoOverwriteExists: nothing changes
+     ELSE Ok(DropEntries(AttachChildren(S1, d, ch, 1, FALSE), gone, 1), NoRet)   \* CreateChildren_Created / _Overwritten
 
 CreateAndEnterRes(S0, d, n, new) ==
   LET S == Mat(S0, d)
@@ -598,7 +593,9 @@ C13_Tree ==
 \* exactly once, and nothing twice, whatever happened between the pages.
 C13_Pagination == lst.ok /\ ~lst.dup
 
-Recycled(d) == dirs[d].deleted /\ ~dirs'[d].deleted
+\* the exhaustive configuration re-uses the ids of removed, unreferenced
+\* directories for new ones; such an id is a different directory afterwards
+Recycled(d) == d \in FreeDirs
 
 \* the change counter moves iff the directory was modified (instantiating
 \* lazy contents is allowed but not required to move it).
@@ -616,5 +613,5 @@ C13_CookiesStable ==
 \* a removed directory stays removed
 C13_DeletedForever ==
   [][\A d \in DOMAIN dirs \cap DOMAIN dirs' :
-        dirs[d].deleted => dirs'[d].deleted \/ dirs'[d] = NewDir(dirs'[d].pend)]_vars
+        (dirs[d].deleted /\ ~Recycled(d)) => dirs'[d].deleted]_vars
 =============================================================================
